@@ -14,6 +14,8 @@ pub enum COp {
     DeleteSub(&'static str),
     GetSub(&'static str),
     Publish(&'static str, usize),
+    /// n messages of `bytes` bytes each
+    PublishBig(&'static str, usize, usize),
     PullNow(&'static str, i32),
     PullBlock(&'static str, i32),
     /// ack / nack / modify the i-th delivery this client (or the setup, see `held`) received
@@ -146,6 +148,7 @@ pub fn start(cx: &Ctx, programs: &[Vec<COp>], held: &[Vec<Rm>]) -> Litmus {
                     COp::DeleteSub(s) => R::Unit(a.delete_sub(s).await),
                     COp::GetSub(s) => R::View(a.get_sub(s).await),
                     COp::Publish(t, n) => R::Ids(a.publish(t, (0..n).map(|j| (format!("c{}-{}", k, j).into_bytes(), vec![])).collect()).await),
+                    COp::PublishBig(t, n, bytes) => R::Ids(a.publish(t, (0..n).map(|j| (vec![b'a' + (k as u8 % 20) + (j as u8 % 3); bytes], vec![])).collect()).await),
                     COp::PullNow(s, max) | COp::PullBlock(s, max) => {
                         let r = a.pull(s, max, matches!(op, COp::PullNow(..))).await;
                         if let Ok(v) = &r {
